@@ -20,7 +20,8 @@ def occ_menu(n):
     closed = np.array([2.0 if i < (n + 1) // 2 else 0.0 for i in range(n)])
     openp = np.array([2.0, 1.0, 1.0, 0.0, 0.0, 0.0][:n]) if n > 1 else np.array([1.0])
     frac = np.array([1.75, 1.25, 0.5, 0.25, 0.125, 0.0625][:n])
-    return [("closed", closed), ("open", openp), ("frac", frac)]
+    near = np.array([2.0, 1.0 + 1e-10, 1.0 - 1e-10, 0.0, 0.0, 0.0][:n]) if n > 1 else np.array([1.0 - 1e-10])  # rounding noise around integers
+    return [("closed", closed), ("open", openp), ("frac", frac), ("near-integer", near)]
 
 
 def spin_menu(n):
@@ -544,7 +545,7 @@ def run(ctx):
     ctx.exhaustive = True
     ctx.rule = (
         f"ESB: all histories of <= {depth} assignments (occs/occs_aminusb/occsa/occsb from menus of right- and wrong-length arrays, None) and reads after every "
-        f"restricted/unrestricted start object with norba,norbb <= {max_norb} x initial occupations {{None, closed, open, fractional}} x occs_aminusb {{None,pos,neg}}; "
+        f"restricted/unrestricted start object with norba,norbb <= {max_norb} x initial occupations {{None, closed, open, fractional, within 1e-10 of integers}} x occs_aminusb {{None,pos,neg}}; "
         f"constructor product kind x norba x norbb x (<=2 arrays absent/longer/shorter); shells: all sequences of <= {maxcon} contractions over l in {{0,1,2,5,9}} x kind in {{c,p,x}} x nexp {{1,3}} "
         "x every single shape mismatch. States hashed on (kind, counts, occs, occs_aminusb, coeffs, energies)."
     )
